@@ -7,6 +7,7 @@ package main
 
 import (
 	"fmt"
+	"go/ast"
 	"go/constant"
 	"go/token"
 	"go/types"
@@ -75,6 +76,7 @@ type Exec struct {
 	logf     func(string, ...interface{})
 	forallVs map[string]*Val
 	sentinel map[string]bool
+	tscope     *ssa.Function // function whose type parameters are in scope while evaluating a callee contract
 	curSuffix  string
 	inputTerms []string
 }
@@ -537,8 +539,11 @@ func (x *Exec) simple(st *State, fr *Frame, in ssa.Instruction) bool {
 	m := st.m
 	switch in := in.(type) {
 	case *ssa.DebugRef:
-		if id, ok := in.Expr.(interface{ String() string }); ok {
-			_ = id
+		if _, isIdent := in.Expr.(*ast.Ident); !isIdent {
+			return true
+		}
+		if v, ok := in.Object().(*types.Var); !ok || v.IsField() {
+			return true
 		}
 		if !in.IsAddr {
 			if obj := in.Object(); obj != nil {
@@ -1023,6 +1028,7 @@ func (x *Exec) makeInterface(st *State, v *Val, from types.Type, to types.Type) 
 			} else {
 				val = v.P.addrTerm(st.m)
 				x.declAddrUFs(st.m)
+				st.assume(v.P.addrFacts(st.m))
 			}
 		} else {
 			val = v.S
@@ -1048,6 +1054,9 @@ func (x *Exec) makeInterface(st *State, v *Val, from types.Type, to types.Type) 
 func (x *Exec) declAddrUFs(m Mode) {
 	x.declUF("fieldaddr", "(declare-fun fieldaddr (Int Int) Int)")
 	x.declUF("elemaddr", fmt.Sprintf("(declare-fun elemaddr (Int %s) Int)", m.idx()))
+	x.declUF("fa_base", "(declare-fun fa_base (Int) Int)")
+	x.declUF("ea_arr", "(declare-fun ea_arr (Int) Int)")
+	x.declUF("ea_idx", fmt.Sprintf("(declare-fun ea_idx (Int) %s)", m.idx()))
 }
 
 // typeTest returns (ok, value) of asserting iface value xv to type t.
